@@ -155,7 +155,7 @@ def script(c, acts):
 
 def renamings(c):
     return ([("framer", c[k]) for k in ("F", "G", "S")] + [("frame", c[k]) for k in ("f0", "f1", "g1", "s0", "s1")]
-            + [("tag", c["tag"]), ("actor", "worker"), ("actor", "work")])
+            + [("tag", c["tag"]), ("actor", c["A"]), ("actor", "work")])
 
 
 def _ren(rho, kind, n):
@@ -169,6 +169,7 @@ def ren_ctx(rho, c):
     for k in ("f0", "f1", "g1", "s0", "s1"):
         c[k] = _ren(rho, "frame", c[k])
     c["tag"] = _ren(rho, "tag", c["tag"])
+    c["A"] = _ren(rho, "actor", c["A"])
     return c
 
 
@@ -386,7 +387,7 @@ def run_c13(ctx):
             covered, chosen, rest = set(), [], []
             for row in rows:
                 f = feats(row["ctx"])
-                if not f <= covered:
+                if row["ctx"]["F"] != "fa" or not f <= covered:     # the key-word-like name profiles are always built
                     covered |= f
                     chosen.append(row)
                 else:
@@ -395,7 +396,7 @@ def run_c13(ctx):
         jobs = []
         for i, row in enumerate(rows):
             rh = renamings(row["ctx"])
-            pick = [rh[(i + j * 4) % len(rh)] for j in range(3)] if ctx.quick else rh
+            pick = [rh[(i + j * 4) % len(rh)] for j in range(3)] if (ctx.quick and row["ctx"]["F"] == "fa") else rh
             jobs.append((row, pick, work))
         with mp.Pool(env.NCPU) as pool:
             results = pool.map(check_row, jobs, chunksize=1)
